@@ -25,6 +25,8 @@ RIDS = ["r1", "r2", "R_3", "EX_a", "v-5", "2x", "r.7", "r8"]
 MIDS = ["A", "B", "C_c", "d-e", "m[e]", "2f", "G"]
 GIDS = ["g1", "g2", "g3", "b0001", "g-5.1"]
 GRPS = ["grp1", "grp2"]
+FRESH_R = ["rN1", "rN2", "rN3"]      # used only as new names inside contexts
+FRESH_M = ["mN1", "mN2"]
 
 
 def fl(s):
@@ -150,6 +152,7 @@ class Exec:
         self.depth = 0
         self.user_vars: set = set()
         self.user_cons: set = set()
+        self.removed = {}        # reaction objects taken out of the model, by id (can be added back)
 
     # -- helpers
     def rxn(self, rid):
@@ -236,7 +239,23 @@ class Exec:
             m.add_reactions(rx)
         elif k == "rm_rxns":
             rs = [self.rxn(r) if (op.get("by") == "obj" and r in m.reactions) else r for r in op["rs"]]
+            for r in op["rs"]:
+                if r in m.reactions and self.depth == 0:
+                    # only reactions removed outside every context are re-added later (see known_findings.json:
+                    # remove + re-add + rename inside one context)
+                    self.removed[r] = m.reactions.get_by_id(r)
+            if op.get("junk") == "none":
+                rs.append(None)            # an element that makes the call raise after the others were handled
+            elif op.get("junk") == "int":
+                rs.append(3.5)
             m.remove_reactions(rs, remove_orphans=op["orphans"])
+        elif k == "readd_rxn":
+            R = self.removed.get(op["r"])
+            if R is None or R.id in m.reactions or R._model is not None:
+                raise KeyError(op["r"])
+            m.add_reactions([R])
+        elif k == "set_functional":
+            m.genes.get_by_id(op["g"]).functional = op["v"]
         elif k == "add_model_mets":
             m.add_metabolites([Metabolite(i, compartment="c") for i in op["ms"]])
         elif k == "rm_mets":
@@ -300,6 +319,15 @@ class Exec:
 # op generator
 # ------------------------------------------------------------------------------------------
 
+CTX = ["enter", "enter", "exit", "exit"]
+PROFILES = [
+    None,                                                                                               # the general mix
+    ["set_lb"] * 3 + ["set_ub"] * 3 + ["set_bounds"] * 3 + ["ratchet_up", "ratchet_down", "ko_rxn", "ko_gene", "ko_genes", "obj_coef", "set_dir"] + CTX,   # bounds on a focus reaction
+    ["add_mets"] * 5 + ["sub_mets"] * 3 + ["imul", "set_bounds", "rm_mets", "add_model_mets", "set_obj"] + CTX,             # stoichiometry
+    ["set_rule"] * 4 + ["ko_gene"] * 2 + ["ko_genes", "remove_genes", "remove_genes", "rename_genes", "rename_genes", "rm_rxns", "add_rxns"] + CTX,  # genes and rules
+    ["add_rxns"] * 3 + ["rm_rxns"] * 3 + ["readd_rxn"] * 2 + ["rename_rxn"] * 2 + ["rename_met", "ctx_add_rename", "ctx_add_rename", "add_boundary", "rm_mets", "add_model_mets", "set_obj", "obj_coef", "set_obj"] + CTX,  # structure and objective
+]
+
 MODELLED = {"set_lb", "set_ub", "set_bounds", "ko_gene", "ko_rxn", "ko_genes", "obj_coef", "set_dir", "enter", "exit",
             "add_mets", "sub_mets", "set_rule"}
 
@@ -311,32 +339,83 @@ def gen_op(rng, ex: Exec, kinds=None, p_bad=0.12):
     gids = [g.id for g in m.genes]
     bad = rng.random() < p_bad
 
+    focus = ex.__dict__.get("focus")
+    if focus not in rids:
+        focus = ex.__dict__["focus"] = rng.choice(rids) if rids else None
+
     def some_r():
         if bad and rng.random() < 0.3 or not rids:
             return rng.choice(RIDS)
+        if focus is not None and rng.random() < 0.5:
+            return focus          # histories that return to the same reaction again and again
         return rng.choice(rids)
+
+    def cur_bounds(r):
+        if r in rids:
+            R = m.reactions.get_by_id(r)
+            return R.lower_bound, R.upper_bound
+        return 0.0, 1000.0
+    queue = ex.__dict__.setdefault("queue", [])
+    if queue:
+        return queue.pop(0)
     kinds = kinds or ["set_lb", "set_ub", "set_bounds", "set_bounds", "add_mets", "add_mets", "sub_mets", "set_rule", "set_rule", "ko_gene",
                       "ko_rxn", "ko_genes", "obj_coef", "set_obj", "set_dir", "add_rxns", "rm_rxns", "add_model_mets", "rm_mets",
-                      "add_boundary", "imul", "remove_genes", "enter", "enter", "exit", "exit"]
+                      "add_boundary", "imul", "remove_genes", "rename_genes", "rename_rxn", "rename_met", "readd_rxn", "ctx_add_rename", "enter", "enter", "exit", "exit"]
     k = rng.choice(kinds)
+    if k in ("rename_rxn", "rename_met") and ex.depth > 0:
+        # The id setters are not context aware: undo functions registered earlier in the context refer to objects by id and
+        # fail or leak after a rename (known_findings.json, rename-inside-context).  Inside a context only the scenario
+        # "add something new, rename it, leave" is generated (ctx_add_rename), which the code supports.
+        k = "set_bounds"
+    if k in ("ratchet_up", "ratchet_down"):
+        # dependent bound changes whose undo is order sensitive: the range is moved entirely above (below) where it was
+        r = some_r()
+        lb, ub = cur_bounds(r)
+        if not (math.isfinite(lb) and math.isfinite(ub)):
+            return {"op": "set_bounds", "r": r, "lb": "-5", "ub": "10"}
+        lo, hi, w = Fraction(lb), Fraction(ub), max(Fraction(ub) - Fraction(lb), Fraction(2))
+        if k == "ratchet_up":
+            seq = [{"op": "set_lb", "r": r, "v": canon.num(lo + (hi - lo) / 2)}, {"op": "set_ub", "r": r, "v": canon.num(hi + 2 * w)},
+                   {"op": "set_lb", "r": r, "v": canon.num(hi + w)}]
+        else:
+            seq = [{"op": "set_ub", "r": r, "v": canon.num(hi - (hi - lo) / 2)}, {"op": "set_lb", "r": r, "v": canon.num(lo - 2 * w)},
+                   {"op": "set_ub", "r": r, "v": canon.num(lo - w)}]
+        if rng.random() < 0.3:
+            seq.append({"op": "set_bounds", "r": r, "lb": canon.num(lo), "ub": canon.num(hi)})
+        queue.extend(seq[1:])
+        return seq[0]
     if k == "set_lb":
-        return {"op": k, "r": some_r(), "v": rng.choice([dy(rng), "-inf", "0", "-1000", dy(rng, -4, 30, 2)])}
+        r = some_r()
+        lb, ub = cur_bounds(r)
+        if rng.random() < 0.35 and math.isfinite(ub) and math.isfinite(lb):
+            # somewhere in the upper half of the current range (often above bounds the reaction had earlier)
+            v = canon.num(Fraction(lb) + (Fraction(ub) - Fraction(lb)) * Fraction(rng.randint(2, 4), 4))
+            return {"op": k, "r": r, "v": v}
+        return {"op": k, "r": r, "v": rng.choice([dy(rng), "-inf", "0", "-1000", dy(rng, -4, 30, 2)])}
     if k == "set_ub":
-        return {"op": k, "r": some_r(), "v": rng.choice([dy(rng), "inf", "0", "1000", dy(rng, -30, 4, 2)])}
+        r = some_r()
+        lb, ub = cur_bounds(r)
+        if rng.random() < 0.35 and math.isfinite(ub):
+            v = canon.num(Fraction(ub) * 2 + rng.randint(1, 40)) if ub >= 0 else canon.num(Fraction(ub) / 2)
+            return {"op": k, "r": r, "v": v}      # push the upper bound out
+        return {"op": k, "r": r, "v": rng.choice([dy(rng), "inf", "0", "1000", dy(rng, -30, 4, 2)])}
     if k == "set_bounds":
         lb, ub = gen_bounds(rng)
         if bad:
             lb, ub = ub, lb
         return {"op": k, "r": some_r(), "lb": lb, "ub": ub}
     if k in ("add_mets", "sub_mets"):
+        r = some_r()
+        own = [y.id for y in m.reactions.get_by_id(r)._metabolites] if r in rids else []
         pool = mids if (mids and rng.random() < 0.8) else MIDS
+        if own and rng.random() < 0.5:
+            pool = own                 # metabolites the reaction already has
         n = rng.randint(1, 3)
         ms = rng.sample(pool, min(n, len(pool)))
-        keys = rng.choice(["obj", "obj", "str", "copy"])
+        keys = rng.choice(["obj", "obj", "str", "copy", "copy"])
         if bad and rng.random() < 0.5:
             ms.append("nope")
             keys = "str"
-        r = some_r()
         mets = []
         for x in ms:
             c = dy(rng, -3, 3, 2)
@@ -378,7 +457,60 @@ def gen_op(rng, ex: Exec, kinds=None, p_bad=0.12):
         return {"op": k, "rxns": rx, "keys": rng.choice(["obj", "copy"])}
     if k == "rm_rxns":
         rs = [some_r() for _ in range(rng.randint(1, 2))]
-        return {"op": k, "rs": list(dict.fromkeys(rs)), "orphans": rng.random() < 0.5, "by": rng.choice(["id", "obj"])}
+        op = {"op": k, "rs": list(dict.fromkeys(rs)), "orphans": rng.random() < 0.5, "by": rng.choice(["id", "obj"])}
+        if bad and rng.random() < 0.6:
+            op["junk"] = rng.choice(["none", "int"])
+        return op
+    if k == "readd_rxn":
+        cand = [r for r, R in ex.removed.items() if r not in rids and R._model is None]
+        if not cand:
+            return {"op": "rm_rxns", "rs": [some_r()], "orphans": False, "by": "obj"}
+        return {"op": k, "r": rng.choice(cand)}
+    if k == "set_functional":
+        return {"op": k, "g": rng.choice(gids) if gids else rng.choice(GIDS), "v": rng.random() < 0.4}
+    if k == "ctx_add_rename":
+        if ex.depth >= 3:
+            return {"op": "exit"}
+        free_r = [x for x in RIDS if x not in rids]
+        fresh = [x for x in FRESH_R if x not in rids]
+        if not free_r or not fresh or not mids:
+            return {"op": "enter"}
+        rid = rng.choice(free_r)
+        lb, ub = gen_bounds(rng)
+        what = rng.choice(["rxn", "rxn", "boundary", "met"])
+        if what == "rxn":
+            seq = [{"op": "enter"}, {"op": "add_rxns", "rxns": [{"id": rid, "lb": lb, "ub": ub, "st": [[rng.choice(mids), dy(rng, 1, 3, 2)]], "rule": ""}], "keys": "obj"},
+                   {"op": "rename_rxn", "r": rid, "new": rng.choice(fresh), "force": True}, {"op": "exit"}]
+        elif what == "boundary":
+            mid = rng.choice(mids)
+            typ = rng.choice(["demand", "sink"])
+            bid = {"demand": "DM_", "sink": "SK_"}[typ] + mid
+            if bid in rids:
+                return {"op": "enter"}
+            seq = [{"op": "enter"}, {"op": "add_boundary", "m": mid, "type": typ}, {"op": "rename_rxn", "r": bid, "new": rng.choice(fresh), "force": True}, {"op": "exit"}]
+        else:
+            free_m = [x for x in MIDS if x not in mids]
+            if not free_m:
+                return {"op": "enter"}
+            mid = rng.choice(free_m)
+            seq = [{"op": "enter"}, {"op": "add_model_mets", "ms": [mid]}, {"op": "rename_met", "m": mid, "new": rng.choice(FRESH_M), "force": True}, {"op": "exit"}]
+        queue.extend(seq[1:])
+        return seq[0]
+    if k == "rename_rxn":
+        return {"op": k, "r": some_r(), "new": rng.choice(RIDS)}
+    if k == "rename_met":
+        return {"op": k, "m": rng.choice(mids) if mids else "A", "new": rng.choice(MIDS)}
+    if k == "rename_genes":
+        if not gids:
+            return {"op": k, "map": [[rng.choice(GIDS), rng.choice(GIDS)]]}
+        olds = rng.sample(gids, min(len(gids), rng.randint(1, 3)))
+        # new names are ids no gene of the model has (renaming onto an existing gene or chains a->b, b->c are left out:
+        # the documentation does not say what they mean)
+        free = [g for g in GIDS + ["gX"] if g not in gids] or ["gX"]
+        targets = [rng.choice(free) for _ in olds]
+        if len(olds) > 1 and rng.random() < 0.4:
+            targets = [targets[0]] * len(olds)      # several genes merged into one new id
+        return {"op": k, "map": [[a, b] for a, b in zip(olds, targets)]}
     if k == "add_model_mets":
         ms = rng.sample(MIDS, rng.randint(1, 2))
         if bad and rng.random() < 0.5:
